@@ -1,6 +1,6 @@
 PLAN['C08'] = dict(
     level='fault_enumeration',
-    units=std_units('C08', [('asan', 'sdcz', 72, 500), ('asan-i64', 'sdcz', 8, 60)], chunk=4, cpu=120),
+    units=std_units('C08', [('asan', 'sdcz', 72, 500), ('asan-i64', 'sdcz', 32, 160)], chunk=4, cpu=120),
     rule='per generated input (complete and incomplete LU; ?gstrf/?gsitrf directly and through ?gssvx/?gsisx incl. row storage and MC64): (sweep) the workspace sits in an arena with 128-byte canaries and ASan-poisoned surroundings; every length on the 4-byte grid from 0 to beyond the smallest sufficient length (found by bisection) for one alignment when that length is <= 24 KiB (64 KiB thorough), '
          'windows around 0 and the threshold plus a coarse grid otherwise and for the other alignment: outcome must be success (structure ok, perms/L/U bytes equal to the library-allocation run) or info > n, never a crash/hang/outside write, and the guarded hook after every growth inside the workspace must find the stack head below its tail; '
          '(growthfail) every k-th allocation request issued from ?expand is failed in turn under library allocation: info > n, or survived with identical factors; (query) lwork = -1 through the drivers: byte snapshots of every argument; '
